@@ -20,9 +20,15 @@ pub struct FCase {
     pub a: Vec<u16>,
     pub b: Vec<u16>,
     pub c: Vec<u16>,
+    /// cuckoo only: number of oldest successfully inserted elements deleted again from a / b before
+    /// the union (the stream of that operand is then the surviving multiset)
+    #[serde(default)]
+    pub del_a: u8,
+    #[serde(default)]
+    pub del_b: u8,
 }
 
-fn build(cfg: &FCfg, hk: HKind, rng: &RngSpec, uni: &[u64], stream: &[u16]) -> (AnyFilter, Vec<u64>) {
+fn build(cfg: &FCfg, hk: HKind, rng: &RngSpec, uni: &[u64], stream: &[u16], del: u8) -> (AnyFilter, Vec<u64>) {
     let mut f = AnyFilter::new(cfg, hk, rng);
     let mut ok = vec![];
     for &i in stream {
@@ -30,6 +36,17 @@ fn build(cfg: &FCfg, hk: HKind, rng: &RngSpec, uni: &[u64], stream: &[u16]) -> (
         if f.insert(k).is_ok() {
             ok.push(k);
         }
+    }
+    if let FCfg::Cuckoo { .. } = cfg {
+        let n = (del as usize).min(ok.len());
+        let mut kept = vec![];
+        for (j, &k) in ok.iter().enumerate() {
+            if j < n && f.delete(k) == Some(true) {
+                continue;
+            }
+            kept.push(k);
+        }
+        ok = kept;
     }
     (f, ok)
 }
@@ -50,9 +67,9 @@ impl Check for Filters {
             probe.push(g.next());
         }
         let rng = |i: usize| &c.rngs[i % c.rngs.len()];
-        let (fa, sa) = build(&c.cfg, c.hk, rng(0), &uni, &c.a);
-        let (fb, sb) = build(&c.cfg, c.hk, rng(1), &uni, &c.b);
-        let (fc, _sc) = build(&c.cfg, c.hk, rng(2), &uni, &c.c);
+        let (fa, sa) = build(&c.cfg, c.hk, rng(0), &uni, &c.a, c.del_a);
+        let (fb, sb) = build(&c.cfg, c.hk, rng(1), &uni, &c.b, c.del_b);
+        let (fc, _sc) = build(&c.cfg, c.hk, rng(2), &uni, &c.c, 0);
         let snap_b = snapshot(&fb, &probe, &uni, true);
         let mut ab = fa.deep_clone();
         let res = ab.union(&fb);
@@ -222,6 +239,10 @@ impl Check for Filters {
             special = fb.drawn() > 0 || per.values().any(|&v| v > bucketsize);
             if special {
                 classes_hit.push("other_uses_alternate_bucket");
+            }
+            if c.del_b > 0 && !sb.is_empty() {
+                classes_hit.push("other_has_deletes");
+                special = true;
             }
         }
         let mut info = Info::new(both && special, hash_json(c)).class_if(both, "both_nonempty");
@@ -398,8 +419,9 @@ fn fstrategy(tier: Tier) -> BoxedStrategy<FCase> {
         stream(maxlen),
         stream(maxlen),
         0u8..10,
+        (prop_oneof![2 => Just(0u8), 1 => 0u8..10], prop_oneof![1 => Just(0u8), 1 => 0u8..24]),
     )
-        .prop_map(|((cfg, hk), rngs, universe, fresh_seed, a, b, c, overlap)| {
+        .prop_map(|((cfg, hk), rngs, universe, fresh_seed, a, b, c, overlap, (del_a, del_b))| {
             // generated overlap: equal, nested, as generated
             let (a, b) = match overlap {
                 0 => (a.clone(), a),
@@ -410,7 +432,7 @@ fn fstrategy(tier: Tier) -> BoxedStrategy<FCase> {
                 }
                 _ => (a, b),
             };
-            FCase { cfg, hk, rngs, universe, fresh_seed, a, b, c }
+            FCase { cfg, hk, rngs, universe, fresh_seed, a, b, c, del_a, del_b }
         })
         .boxed()
 }
@@ -442,7 +464,7 @@ pub fn checks() -> Vec<Box<dyn DynCheck>> {
 }
 
 pub fn run(ctx: &Ctx) {
-    ctx.set_rule("generated: structure in {Bloom, Quotient, Cuckoo, HashSet, CMS, HLL} x configuration x hasher family x streams A, B, C over one colliding universe with generated overlap (as generated, equal, nested, empty, near capacity). Oracle on a successful merge: B unchanged; A∪B observationally equal (query/query_point over universe + fresh keys, len, is_empty, count, registers, result of one further insert/add on clones) to a fresh structure fed A then B (cuckoo: class-multiset model with per-class copy counts, plus the sequential reference whenever it accepted everything); commutativity, associativity (Bloom, Quotient, HashSet, CMS, HLL); idempotence (Bloom, Quotient, HashSet, HLL). A failed union is checked against C12's unchanged-state oracle and, for the quotient filter, must be justified by the class count. Non-trivial: both streams non-empty, merge succeeded, and for quotient the other operand has a shifted run or wraps (Ident) / for cuckoo the other operand used an alternate bucket (drew RNG words or holds > bucketsize copies of one key). Distinct = hash of the case.");
+    ctx.set_rule("generated: structure in {Bloom, Quotient, Cuckoo, HashSet, CMS, HLL} x configuration x hasher family x streams A, B, C over one colliding universe with generated overlap (as generated, equal, nested, empty, near capacity). Oracle on a successful merge: B unchanged; A∪B observationally equal (query/query_point over universe + fresh keys, len, is_empty, count, registers, result of one further insert/add on clones) to a fresh structure fed A then B (cuckoo: class-multiset model with per-class copy counts, plus the sequential reference whenever it accepted everything); commutativity, associativity (Bloom, Quotient, HashSet, CMS, HLL); idempotence (Bloom, Quotient, HashSet, HLL). A failed union is checked against C12's unchanged-state oracle and, for the quotient filter, must be justified by the class count. For the cuckoo filter the operands may have had their oldest elements deleted again before the union (holes in buckets); their stream is then the surviving multiset. Non-trivial: both streams non-empty, merge succeeded, and for quotient the other operand has a shifted run or wraps (Ident) / for cuckoo the other operand used an alternate bucket (drew RNG words or holds > bucketsize copies of one key). Distinct = hash of the case.");
     ctx.run_regressions(&[&Filters, &Sketches]);
     let t = ctx.tier;
     ctx.run_random(&Filters, t.pick(300_000, 4_000_000), move || fstrategy(t));
